@@ -55,6 +55,9 @@ theorem trialDivideBy_spec (fuel : Nat) : ∀ (ps : List Nat) (nred : Nat) (fs :
 /-- the trial-division step of `factor` -/
 def trialDiv (n : Nat) : Nat × List Nat := trialDivideBy 1100 smallPrimes n []
 
+/-- the value handed to `factor_impl` by `factor`: `n` with the 46 small primes divided out -/
+theorem trialDiv_def (n : Nat) : trialDiv n = trialDivideBy 1100 smallPrimes n [] := rfl
+
 theorem trialDiv_spec (n : Nat) :
     (trialDiv n).2.prod * (trialDiv n).1 = n ∧ ∀ x ∈ (trialDiv n).2, x ∈ smallPrimes := by
   obtain ⟨h1, ext, h2, h3⟩ := trialDivideBy_spec 1100 smallPrimes n []
@@ -190,9 +193,11 @@ theorem factorRun_prod {o : Oracle σ} (hok : OracleOK o) {fuel n : Nat} {alg : 
   rw [hf, List.prod_append, hp]
   exact (trialDiv_spec n).1
 
-/-- **totality of the entry point** from totality of the inner run -/
+/-- **totality of the entry point** from totality of the inner run. The selector precondition
+and the fuel bound are on the value AFTER trial division — the one lib.rs asserts on
+(`assert!(n.bits() <= 64)` sits in `factor_impl`). -/
 theorem factor_total_aux {o : Oracle σ} (hok : OracleOK o) (fuel n : Nat) (alg : Algo) (os : σ)
-    (hsel : SelectorPre alg n) (hfuel : bits n ≤ fuel) :
+    (hsel : SelectorPre alg (trialDiv n).1) (hfuel : bits (trialDiv n).1 ≤ fuel) :
     (∃ l, factor o fuel n alg os = .ok l ∧ l.prod = n) ∨ factor o fuel n alg os = .failure := by
   rw [factor_eq]
   split
@@ -200,16 +205,29 @@ theorem factor_total_aux {o : Oracle σ} (hok : OracleOK o) (fuel n : Nat) (alg 
   · rename_i h0
     split
     · exact Or.inr rfl
-    · have hle := trialDiv_cofactor_le h0
-      obtain ⟨s', hs'⟩ := factorImpl_total_aux hok alg fuel (trialDiv n).1
-        (initSt os (trialDiv n).2) (trialDiv_cofactor_pos h0)
-        (Nat.le_trans (bits_le_of_le hle) hfuel) (hsel.mono hle)
+    · obtain ⟨s', hs'⟩ := factorImpl_total_aux hok alg fuel (trialDiv n).1
+        (initSt os (trialDiv n).2) (trialDiv_cofactor_pos h0) hfuel hsel
       have hrun : factorRun o fuel n alg os = .ok s' := hs'
       rw [hrun]
       have hprod := factorRun_prod hok h0 hrun
       rcases checkFactors_of_prod o s'.os n s'.factors hprod with h | h
       · exact Or.inl ⟨_, h, by rw [sortNat_prod, hprod]⟩
       · exact Or.inr h
+
+/-- the hypotheses on the input `n` imply those on the trial-divided value -/
+theorem pre_of_input {alg : Algo} {n fuel : Nat} (hsel : SelectorPre alg n) (hfuel : bits n ≤ fuel) :
+    SelectorPre alg (trialDiv n).1 ∧ bits (trialDiv n).1 ≤ fuel := by
+  have hle : (trialDiv n).1 ≤ n := by
+    by_cases h0 : n = 0
+    · subst h0
+      have h := (trialDiv_spec 0).1
+      rcases Nat.mul_eq_zero.mp h with h1 | h1
+      · have hmem : (0 : Nat) ∈ (trialDiv 0).2 := List.prod_eq_zero_iff.mp h1
+        have := smallPrimes_ge_two 0 ((trialDiv_spec 0).2 0 hmem)
+        omega
+      · omega
+    · exact trialDiv_cofactor_le h0
+  exact ⟨hsel.mono hle, Nat.le_trans (bits_le_of_le hle) hfuel⟩
 
 /-- A successful `factor` call, unfolded: `n = 0` or an accepted size, a successful inner run
 whose vector (sorted) is the answer. -/
